@@ -332,6 +332,12 @@ fn small_specs() -> Vec<Spec> {
 }
 
 pub fn generate(tier: Tier) -> Vec<(String, Vec<Vec<Item>>)> {
+    generate_ext(tier, false)
+}
+
+/// `extended` adds group E (thorough tier only): every triple over all top-level leaves and containers
+/// around every triple of reduced leaves
+pub fn generate_ext(tier: Tier, extended: bool) -> Vec<(String, Vec<Vec<Item>>)> {
     let specs = small_specs();
     let none = Spec::none();
     let mut groups = vec![];
@@ -442,6 +448,38 @@ pub fn generate(tier: Tier) -> Vec<(String, Vec<Vec<Item>>)> {
         }
     }
     groups.push((format!("D: every pair over {} and every triple over {} top-level items", top.len(), reduced.len()), d));
+    if extended {
+        let mut e = vec![];
+        for x in &leaves_top {
+            for y in &leaves_top {
+                for z in &leaves_top {
+                    e.push(vec![x.clone(), y.clone(), z.clone()]);
+                }
+            }
+        }
+        let n_top = e.len();
+        // inside an argument only the literal forms that are legal there
+        let reduced_arg: Vec<Item> = {
+            let mut v = leaf_lits(true);
+            v.extend(SIMPLE_SHORT.iter().map(|n| f0(n, &none)));
+            v.push(f0("m", &specs[3]));
+            v.push(Item::Fmt("h", vec![vec![f0("l", &none)]], none.clone()));
+            v.push(Item::Fmt("X", vec![vec![Item::Lit("k", "k")]], none.clone()));
+            v
+        };
+        for c in CONTAINERS {
+            for x in &reduced_arg {
+                for y in &reduced_arg {
+                    for z in &reduced_arg {
+                        for sp in [&specs[0], &specs[2], &specs[4]] {
+                            e.push(vec![Item::Fmt(c, vec![vec![x.clone(), y.clone(), z.clone()]], (*sp).clone())]);
+                        }
+                    }
+                }
+            }
+        }
+        groups.push((format!("E: every triple over {} top-level items ({}) and 7 containers x every triple over {} items x 3 specs", leaves_top.len(), n_top, reduced_arg.len()), e));
+    }
     groups
 }
 
@@ -495,7 +533,7 @@ pub fn run(ctx: &Ctx) -> Report {
         rep.violation("highlight:adds-no-styling", "the probe {h(x)} requests no style at any of the five levels", json!({"pattern": "{h(x)}"}));
     }
     // the generator's thorough domain is cheap enough for every run
-    let groups = generate(Tier::Thorough);
+    let groups = generate_ext(Tier::Thorough, ctx.tier == Tier::Thorough);
     let recs = records();
     let mut notes = vec![];
     let evals = AtomicU64::new(0);
